@@ -11,7 +11,7 @@
    RPM values that are NaN, infinite, negative or below 1 count as "not spinning"
    because int() of them is <= 0 - the theorems hold for every float64. *)
 From Coq Require Import ZArith List Floats.
-From F2G Require Import Go.GoFloat Model.Fan Model.Limits Proofs.Limits.
+From F2G Require Import Go.GoFloat Model.Fan Model.Limits Proofs.Limits Drv.Limits Proofs.LimitsBridge.
 Import ListNotations.
 Open Scope Z_scope.
 
@@ -103,6 +103,17 @@ Theorem C13_reattach_fails_before_repair :
     limits (run_ops_old (new_fan HwMon false None None None) [Attach data]).
 Proof. exact reattach_old_model_witness. Qed.
 Print Assumptions C13_reattach_fails_before_repair.
+
+(* the boolean observer run on the implementation's observations is exactly the Prop
+   [Holds] (built from start_spec / max_spec / the statements above), and it asks for
+   nothing the model does not deliver: agreement with the model implies it *)
+Theorem C13_observer_exact : forall c, holdsb c = true <-> Holds c.
+Proof. exact holdsb_spec. Qed.
+Print Assumptions C13_observer_exact.
+
+Theorem C13_agreement_implies_holds : forall c, mismatch c = false -> holdsb c = true.
+Proof. exact agreement_implies_holds. Qed.
+Print Assumptions C13_agreement_implies_holds.
 
 (* ---- non-vacuity: the hypotheses are met by ordinary curves and the conclusions are specific ---- *)
 Example C13_nonvacuous_curve :
